@@ -156,8 +156,10 @@ def call_impl(case):
         if kind == 'LL':
             return ph.operation_list_list_hash([[b58('o', x) for x in g] for g in case[1]])
         return ph.block_payload_hash(b58('B', case[1]), case[2], [b58('o', x) for x in case[3]])
-    except OverflowError:
+    except (OverflowError, ValueError):
         return 'error'
+    except Exception as e:  # noqa: BLE001 — anything else escaping from the code under test is an outcome, not a harness failure
+        return f'raised {type(e).__name__}'
 
 
 def ref_impl(case):
@@ -384,7 +386,7 @@ def run(ctx):
     try:
         for c in cases:
             r = call_impl(c)
-            toy_out.append(r if r == 'error' else unb58({'L': 'Lo', 'LL': 'LLo', 'P': 'vh'}[c[0]], r).hex())
+            toy_out.append(r if r == 'error' or r.startswith('raised ') else unb58({'L': 'Lo', 'LL': 'LLo', 'P': 'vh'}[c[0]], r).hex())
     finally:
         ph.blake2b = real_blake
 
